@@ -200,6 +200,13 @@ type server struct {
 
 	clientService *clientService
 	apiRegistrar  *apiRegistrar
+
+	// connsMu guards conns and stopping.
+	connsMu sync.Mutex
+	// conns holds every connection from newClient until its internalClose has finished,
+	// registered (CONNECT completed) or not, so that Stop can close and await all of them.
+	conns    map[*client]struct{}
+	stopping bool
 }
 
 func (srv *server) APIRegistrar() APIRegistrar {
@@ -868,6 +875,7 @@ func defaultServer() *server {
 		exitChan:       make(chan struct{}),
 		exitedChan:     make(chan struct{}),
 		clients:        make(map[string]*client),
+		conns:          make(map[*client]struct{}),
 		offlineClients: make(map[string]time.Time),
 		willMessage:    make(map[string]*willMsg),
 		retainedDB:     retained_trie.NewStore(),
@@ -1149,7 +1157,25 @@ func (srv *server) newClient(c net.Conn) (*client, error) {
 	}
 	client.setConnecting()
 
+	if !srv.trackConn(client) {
+		_ = c.Close()
+		return nil, errors.New("server is stopping")
+	}
 	return client, nil
+}
+
+// trackConn adds c to the set of live connections; false if the server is stopping.
+func (srv *server) trackConn(c *client) bool {
+	srv.connsMu.Lock()
+	defer srv.connsMu.Unlock()
+	if srv.stopping {
+		return false
+	}
+	if srv.conns == nil {
+		srv.conns = make(map[*client]struct{})
+	}
+	srv.conns[c] = struct{}{}
+	return true
 }
 
 func (srv *server) initPluginHooks() error {
@@ -1548,16 +1574,15 @@ func (srv *server) Stop(ctx context.Context) error {
 		for _, ws := range srv.websocketServer {
 			ws.Server.Shutdown(ctx)
 		}
-		// close all idle clients
-		srv.mu.Lock()
-		chs := make([]chan struct{}, len(srv.clients))
-		i := 0
-		for _, c := range srv.clients {
-			chs[i] = c.closed
-			i++
+		// close all connections, including those that have not completed CONNECT
+		srv.connsMu.Lock()
+		srv.stopping = true
+		chs := make([]chan struct{}, 0, len(srv.conns))
+		for c := range srv.conns {
+			chs = append(chs, c.closed)
 			c.Close()
 		}
-		srv.mu.Unlock()
+		srv.connsMu.Unlock()
 
 		done := make(chan struct{})
 		if len(chs) != 0 {
